@@ -1,70 +1,14 @@
-"""Per-property configuration of ./check."""
-from vlib import diff_paths
-
-
-def c04_features(a, b):
-    """Why might diff(A,B) be refused although the pair is expressible?  Features of the pair."""
-    def kids(n):
-        k = n.get("kids")
-        return k if isinstance(k, dict) else {}
-    def any_absent(n):
-        return n["names"][1] == "" or any(any_absent(c) for c in kids(n).values())
-    feats = set()
-    def walk(x, y):
-        for k in set(kids(x)) | set(kids(y)):
-            if k in kids(x) and k in kids(y):
-                cx, cy = kids(x)[k], kids(y)[k]
-                if cx["names"][1] == "" or cy["names"][1] == "":
-                    feats.add("shared-entry-without-target-name")
-                walk(cx, cy)
-            elif k in kids(x):
-                if any(any_absent(g) for g in kids(kids(x)[k]).values()):
-                    feats.add("removed-subtree-has-unnamed-descendant")
-    walk(a, b)
-    return feats
-
-
-def c04_sig(v):
-    import importlib
-    chk = importlib.import_module("__main__")
-    rec = v.get("rec") or {}
-    base = chk.default_sig(v)
-    if rec.get("op") == "diff" and isinstance(v.get("got"), dict) and v["got"].get("ok") is False:
-        f = c04_features(rec["A"], rec["B"])
-        # the first feature alone explains a refusal, so it names the cause when present
-        cause = "removed-subtree-has-unnamed-descendant" if "removed-subtree-has-unnamed-descendant" in f else ",".join(sorted(f)) or "other"
-        return base + "|" + cause
-    return base
-
+"""Per-property configuration of ./check: one module lib/propdefs/<id>.py per property exposing P."""
+import importlib.util, os, glob
 
 HOOK_COMMITS = ["f882f03"]
 NOT_BUILT = {}
-
-PROPS = {
-    "C03": {
-        "dir": "quill",
-        "mc": [{"module": "MC_TinyV2", "cfg": "MC_TinyV2.cfg"}],
-        "trace": {"module": "Trace_TinyV2", "cfg": "Trace_TinyV2.cfg"},
-        "trace_s2i": 400,
-        "i2s_n": {"quick": 300, "thorough": 3000},
-        "classify_vec": lambda r: "%s/%s/%s" % (r.get("op"), r.get("fault", ""), "ok" if r["exp"].get("ok", True) else "refuse"),
-        "required_classes": ["rt//ok", "lines//ok", "lines/dup/refuse", "lines/ind+/refuse", "lines/ind+/ok", "lines/tag/ok",
-                             "lines/dropcell/refuse", "lines/addcell/refuse", "lines/emptycell1/refuse"],
-        "level_text": "The Tiny v2 reader is specified as the indentation machine the code implements (one step per line, open path explicit) and model-checked: for every tree of the bounded universe and both sibling orders read(write(M)) = M with one line per entry (nothing merged, lost or re-parented), duplicated lines refused; all single-line faults enumerated. Every explored text (valid and faulted) is read by the real tiny_v2::read and compared with the specification's reader; every tree is written by the real writer from several insertion orders (byte-identical), read back (= M), rewritten (fixed point), and the real text is accepted by the specification's reader as a writing of M (TLC trace validation). Larger random sets (2-4 namespaces, unicode, multi-line comments, inner-class names, parameters with/without source names) go the same way.",
-        "level_note": "Trusted: TLC; harness projection and the line splitter/joiner (tab split, \\n escape) in proj_quill.rs. Comments containing tab/CR or a literal backslash-n are outside the quantifier and not generated. Sibling order is not prescribed by the specification, only insertion-independence and stability.",
-    },
-    "C04": {
-        "dir": "quill",
-        "mc": [{"module": "MC_DiffApply", "cfg": "MC_DiffApply.cfg"}],
-        "trace": {"module": "Trace_DiffApply", "cfg": "Trace_DiffApply.cfg"},
-        "i2s_n": {"quick": 300, "thorough": 3000},
-        "classify_vec": lambda r: "%s/%s/%s" % (r.get("op"), r.get("ph"), "ok" if (r["exp"].get("ok") if "ok" in r["exp"] else None) else "refuse"),
-        "required_classes": ["apply/table/ok", "apply/table/refuse", "apply/pair/ok", "apply/corrupt/ok", "apply/corrupt/refuse",
-                             "text/pair/ok", "text/corrupt/refuse", "diff/pair/ok", "diff/undiffable/refuse"],
-        "signature": c04_sig,
-        "level_text": "The diff/apply design (operational four-case merge = declarative consistent/effect statement; apply(diff(A,B),A)=B for every expressible pair, also through the .tinydiff text) is model-checked exhaustively over the bounded universe (every action x target x old-value case at each of the 5 levels; all pairs of one-key-per-level trees; every single-action corruption of a valid diff); every explored case is replayed through MappingsDiff::apply_to / diff / tiny_v2_diff::read_file and compared with the specification's result; larger seeded random pairs and corrupted diffs executed by the real code are re-judged by TLC (trace validation).",
-        "level_note": "Trusted: TLC, the projection Mappings <-> abstract tree and the .tinydiff line joiner in harness/src/proj_quill.rs. Bounded: MC universe has one key per level; I2S inputs up to 12 classes. Parameter source names are outside the diff format and kept equal on both sides.",
-        "assumptions": ["TLC/SANY/CommunityModules", "harness projection quill Mappings <-> abstract tree (proj_quill.rs)",
-                        "line joiner for .tinydiff text", "bounded universe: one key per level (pairs), one focus node (table)"],
-    },
-}
+PROPS = {}
+_d = os.path.join(os.path.dirname(os.path.abspath(__file__)), "propdefs")
+for _f in sorted(glob.glob(os.path.join(_d, "C*.py"))):
+    _id = os.path.basename(_f)[:-3]
+    _s = importlib.util.spec_from_file_location("propdef_" + _id, _f)
+    _m = importlib.util.module_from_spec(_s)
+    _s.loader.exec_module(_m)
+    if getattr(_m, "P", None):
+        PROPS[_id] = _m.P
